@@ -15,22 +15,21 @@
     * C10_unique_string_terminates    the fuel passed to the recursive unique_string suffices
     * C10_identifiers_unique_valid    generated names are pairwise distinct valid symbols, MIN/MAX
                                       bracket each group, numbers run from 1
-    * C10_linker_idempotent_query     queries leave no trace (true after fix 795bab9)
-    * C10_pcm_region_sound_partial    one PCM header re-homed by add_song: the bank entry is the
-                                      header of a window whose bytes are the sample's — PARTIAL:
-                                      extra hypotheses `start = 0` (known finding D11) and the allocator
-                                      invariant of C14 for the current wave bank (the bound on the number
-                                      of sample headers went with fix 8d3c42d)
-    * C10_offset_window_counterexample  the D11 witness
-    * C10_pcm_histories_partial       invariant over ALL histories of add_song/queries on a fresh linker:
+    * C10_linker_idempotent_query     queries leave no trace (true after fix 81bf063)
+    * C10_pcm_region_sound_partial    one PCM header (any start offset) re-homed by add_song: the
+                                      bank entry is the header of a window whose bytes are the
+                                      sample's playback window — PARTIAL: the extra hypothesis is the
+                                      allocator invariant of C14 for the current wave bank
+    * C10_offset_window_regression    the former D11 witness on the repaired linker
+    * C10_pcm_histories               invariant over ALL histories of add_song/queries on a fresh linker:
                                       every song of the bank was read from one of the added files, and every
                                       patch entry serves — in the banks as they are now — what the file carried
-                                      for that slot; PCM headers address exactly the sample's bytes inside the
-                                      PCM bank get_pcm_data returns, with the rate's pitch code, under the bank
-                                      rule; data bank duplicate-free; C14's allocator invariant — PARTIAL: the one
-                                      extra hypothesis is `start = 0` in every PCM header read (D11)
-    * C10_pcm_later_songs_keep_partial  split histories: nothing a later song adds changes what an earlier
-                                      patch entry resolves to (same extra hypothesis)
+                                      for that slot; PCM headers address exactly the bytes of the playback window
+                                      `pcmd[position+start, +size)` inside the PCM bank get_pcm_data returns, with
+                                      the rate's pitch code, under the bank rule; data bank duplicate-free; C14's
+                                      allocator invariant
+    * C10_pcm_later_songs_keep        split histories: nothing a later song adds changes what an earlier
+                                      patch entry resolves to
     * C10_reader_agreement            the linker's chunk walk (readSong = state-free part of add_song) and the
                                       spec reader agree on every byte string the spec reader accepts: same
                                       sequence, group and entries; add_song is the fold over exactly these
@@ -38,7 +37,7 @@
                                       it is the same entry; equal PCM headers iff equal address, pitch code, size
     * C10_song_resolves_partial       every song of every history whose file the spec reader accepts passes the
                                       spec's executable per-song resolver `LinkSpec.songOk` at its song number
-                                      (PARTIAL: D11 hypothesis, bank below 4 GiB)
+                                      (PARTIAL: bank below 4 GiB)
     * C10_group_key_agrees            keyify = spec symbolOf, group key = spec groupOf, operator< = spec order
     * C10_resolver_songs_partial      the bank's songs in song-number order are the spec's `ordered songs`, pairwise;
                                       the resolver's per-song loop passes
@@ -360,7 +359,7 @@ example : headerDefs exHeaderLinker =
 
 /-- Queries leave no trace: a history with get_seq_data calls in it ends in the same linker
 state — hence the same sequence bank, PCM bank and headers — as the history without them, and
-asking twice gives the same bytes.  (False before fix 795bab9: `link A:a Q A:b`.) -/
+asking twice gives the same bytes.  (False before fix 81bf063: `link A:a Q A:b`.) -/
 theorem C10_linker_idempotent_query (ops : List Op) (l : Linker) :
     runOps ops l = runOps (ops.filter fun o => match o with | .query => false | .add .. => true) l := by
   induction ops generalizing l with
@@ -382,21 +381,21 @@ theorem C10_linker_idempotent_query (ops : List Op) (l : Linker) :
         | error e => rfl
         | ok l' => exact ih l'
 
-/-- One PCM header re-homed by add_song (PARTIAL: start offset 0 — known finding D11 — and a wave bank
-satisfying C14's allocator invariant, which every bank reached from `Bank.new` by such additions does;
-the former bound on the number of sample headers is gone with fix 8d3c42d).  After a successful `addPcmh`: the wave bank holds a sample `h2` whose window
-`[position, position + size)` shows exactly the bytes `pcmd[position₀, position₀ + size)` the
-song's header addressed; the patch entry's data-bank entry is `pcmHeader h2`, i.e. that address
+/-- One PCM header, with ANY start offset, re-homed by add_song (PARTIAL: a wave bank satisfying C14's
+allocator invariant, which every bank reached from `Bank.new` by additions does; the former bound on
+the number of sample headers is gone with fix 8769e2a).  After a successful `addPcmh`: the wave bank holds a sample `h2` whose window
+`[position, position + size)` (its start offset is 0) shows exactly the bytes
+`pcmd[position₀ + start₀, position₀ + start₀ + size)` the song's header addressed; the patch entry's data-bank entry is `pcmHeader h2`, i.e. that address
 (with the pitch code of the song's rate) and that size; the invariant is kept and no byte of any
 window handed out earlier changes. -/
 theorem C10_pcm_region_sound_partial (sdata seqLen : Nat) (pcmd data : Bytes) (a a' : Acc) (rs : List Alloc.Win)
     (header : Wave.Sample) (hh : Wave.Sample.fromBytes (data.drop 4) = some header)
-    (hstart : header.start = 0) (hsmall : header.size < 1073741824) (hnd : a.bank.Nodup)
+    (hsmall : header.size < 1073741824) (hnd : a.bank.Nodup)
     (inv : Wave.Inv a.wave rs) (h : addPcmh sdata seqLen pcmd data a = .ok a') :
     ∃ (h2 : Wave.Sample) (idx addr : Nat) (rs' : List Alloc.Win),
       a'.patch = a.patch ++ [(addr, idx % 65536)] ∧ a'.bank[idx]? = some (pcmHeader h2) ∧ a'.bank.Nodup ∧
       h2 ∈ a'.wave.samples ∧ h2.start = 0 ∧ h2.size = header.size ∧ h2.rate = header.rate ∧
-      Alloc.Win.reads a'.wave.rom ⟨h2.position, h2.size⟩ = LinkSpec.readAt pcmd header.position header.size ∧
+      Alloc.Win.reads a'.wave.rom ⟨h2.position, h2.size⟩ = LinkSpec.readAt pcmd (header.position + header.start) header.size ∧
       Wave.Inv a'.wave rs' ∧
       (∀ s ∈ a.wave.samples, (Wave.Sample.win s).reads a'.wave.rom = (Wave.Sample.win s).reads a.wave.rom) := by
   unfold addPcmh at h
@@ -419,10 +418,10 @@ theorem C10_pcm_region_sound_partial (sdata seqLen : Nat) (pcmd data : Bytes) (a
           · rename_i h2 hget
             simp only [Except.ok.injEq] at h
             subst h
-            have hlen : ((pcmd.drop header.position).take header.size).length = header.size := by
+            have hlen : ((pcmd.drop (header.position + header.start)).take header.size).length = header.size := by
               simp only [List.length_take, List.length_drop]; omega
-            have adm : Wave.Adm a.wave { header with position := 0 } ((pcmd.drop header.position).take header.size) :=
-              ⟨by simp only [hstart, hlen]; omega, by rw [hlen]; exact hsmall, fun _ => hstart⟩
+            have adm : Wave.Adm a.wave { header with position := 0, start := 0 } ((pcmd.drop (header.position + header.start)).take header.size) :=
+              ⟨by rw [hlen]; exact hsmall⟩
             have so := Wave.addSample_step a.wave rs _ _ w sidx inv adm hadd
             obtain ⟨s0, hs0, hread, hst, hsz, hrt⟩ := so.entry
             have hmem : h2 ∈ w.samples := List.mem_of_getElem? hget
@@ -430,11 +429,12 @@ theorem C10_pcm_region_sound_partial (sdata seqLen : Nat) (pcmd data : Bytes) (a
             have es : s0 = h2 := by rw [hs0] at hget; exact Option.some.inj hget
             subst es
             refine ⟨s0, (addUnique a.bank (pcmHeader s0)).1, _, _, rfl, ustd.1, ustd.2.2.1, hmem, ?_, hsz, hrt, ?_, so.inv, ?_⟩
-            · rw [hst]; exact hstart
-            · have : Wave.Sample.win s0 = ⟨s0.position, s0.size⟩ := by
-                simp only [Wave.Sample.win, hst, hstart, Nat.add_zero]
+            · rw [hst]; simp
+            · have hst0 : s0.start = 0 := by rw [hst]; simp
+              have : Wave.Sample.win s0 = ⟨s0.position, s0.size⟩ := by
+                simp only [Wave.Sample.win, hst0, Nat.add_zero]
               rw [← this, hread]
-              simp only [hstart, List.drop_zero, LinkSpec.readAt]
+              simp only [List.drop_zero, LinkSpec.readAt]
               rw [List.take_take, Nat.min_self]
             · intro s hs
               obtain ⟨r, hr, g1, g2⟩ := inv.housed s hs
@@ -449,22 +449,22 @@ def d11Result : Acc := match addPcmh 8 16 d11Pcmd d11Entry d11Acc with
   | .ok a => a
   | .error _ => d11Acc
 
-/-- D11 seen through the linker (the hypothesis `start = 0` of `C10_pcm_region_sound_partial` is
-needed): a header with start offset 4 and size 12 over `pcmd = 10 … 2f` addresses the bytes
-`14 … 1f`; add_song stores `10 … 1b` (12 bytes, used size 12) and emits a PCM header with address
-4 and size 12, a window that runs past the used PCM bank and does not show the sample. -/
-theorem C10_offset_window_counterexample :
+/-- the former D11 witness on the repaired linker (regression): a header with start offset 4 and
+size 12 over `pcmd = 10 … 2f` addresses the bytes `14 … 1f`.  Before the repair add_song stored
+`10 … 1b` and emitted a PCM header with address 4, a window running past the used PCM bank.  Now it
+stores `14 … 1f` (12 bytes, used size 12) and emits the header address 0 (pitch code 4), size 12:
+the linked window shows the sample. -/
+theorem C10_offset_window_regression :
     addPcmh 8 16 d11Pcmd d11Entry d11Acc = .ok d11Result ∧
-    d11Result.bank = [[4, 0, 0, 4, 0, 0, 0, 12]] ∧ d11Result.wave.currentSize = 12 ∧
-    LinkSpec.readAt (d11Result.wave.rom.take d11Result.wave.currentSize) 4 12 ≠ LinkSpec.readAt d11Pcmd 4 12 := by
+    d11Result.bank = [[4, 0, 0, 0, 0, 0, 0, 12]] ∧ d11Result.wave.currentSize = 12 ∧
+    LinkSpec.readAt (d11Result.wave.rom.take d11Result.wave.currentSize) 0 12 = LinkSpec.readAt d11Pcmd 4 12 := by
   refine ⟨rfl, by decide, by decide, by decide⟩
 
 /-! ### whole histories -/
 
-/-- PCM regions and data entries over whole histories (PARTIAL — the extra hypothesis is `hD11`: every
-PCM header in the added files has start offset 0, the exclusion the known finding D11 forces.  Before
-fix 8d3c42d a second one was needed: at most 65536 sample headers, because `add_song` narrowed the
-result of `add_sample` to a `uint16_t`).
+/-- PCM regions and data entries over whole histories.  (Full since the repair of D11 — the playback
+window of a PCM header may have any start offset — and fix 8769e2a — no bound on the number of sample
+headers.)
 
 For EVERY list of operations (add-song of any byte strings under any names, queries) that a fresh
 linker — `MDSDRV_Linker()` is `fresh 4161536 32768`; any rom of fewer than 2^24 bytes and any bank size
@@ -474,17 +474,16 @@ patch table has exactly one entry per `glob`/`pcmh` child of the file's `dblk` l
 each serving (`Serves`) what that child carried — in the banks as they are NOW, after all later
 songs: the data entry is in the data bank at the recorded index; the PCM header at the recorded
 index addresses, inside the PCM bank `get_pcm_data` returns, exactly the bytes
-`pcmd[position, position+size)` of the song's own header, with the pitch code of the song's rate, and
+`pcmd[position+start, position+start+size)` (the playback window) of the song's own header, with the pitch code of the song's rate, and
 obeys the bank rule.  The data bank has no duplicates and the wave bank satisfies C14's allocator
 invariant (regions and gaps tile the used area: no two allocated regions overlap). -/
-theorem C10_pcm_histories_partial (m bk : Nat) (hm : 0 < m) (hm24 : m < 16777216) (hb : bk < 1073741824)
-    (ops : List Op) (l : Linker) (hrun : runOps ops (Linker.fresh m bk) = .ok l)
-    (hD11 : ∀ name file, Op.add name file ∈ ops → FileStart0 file) :
+theorem C10_pcm_histories (m bk : Nat) (hm : 0 < m) (hm24 : m < 16777216) (hb : bk < 1073741824)
+    (ops : List Op) (l : Linker) (hrun : runOps ops (Linker.fresh m bk) = .ok l) :
     (∀ sd ∈ l.songs, ∃ name file rd, Op.add name file ∈ ops ∧ readSong file = some rd ∧
         sd.filename = name ∧ sd.data = rd.seq ∧ All2 (Serves l) sd.patch rd.carried) ∧
     l.dataBank.Nodup ∧ l.songs.length = (ops.flatMap Op.src).length ∧
     ∃ rs, Wave.Inv l.wave rs := by
-  obtain ⟨rs, I, x, _⟩ := runOps_inv ops _ l [] [] (linv_fresh m bk hm (by omega) hb) hD11 hrun
+  obtain ⟨rs, I, x, _⟩ := runOps_inv ops _ l [] [] (linv_fresh m bk hm (by omega) hb) hrun
   have hmax : l.wave.maxSize < 16777216 := by
     rw [x.same.1]; exact hm24
   refine ⟨?_, I.nodup, ?_, rs, I.wave⟩
@@ -502,25 +501,23 @@ theorem C10_pcm_histories_partial (m bk : Nat) (hm : 0 < m) (hm24 : m < 16777216
     · exact h5.imp (serves_of_resolves l rs I.wave hmax)
   · rw [runOps_songs_length ops _ l hrun]; simp [Linker.fresh, Linker.songs]
 
-/-- Samples and data of later songs never disturb earlier ones (PARTIAL: same extra hypothesis).
+/-- Samples and data of later songs never disturb earlier ones.
 Split any history in two: after the first part the linker is `l1`, after the whole `l`.  Then every
 song of `l1` is still a song of `l` with the same patch table; every data-bank index of `l1` holds
 the same entry in `l`; every sample header of `l1` is a header of `l`; and no byte of the window
 `[position, position + start + size)` of any sample header of `l1` has changed in the rom — so
 whatever a patch entry resolved to in `l1` it resolves to in `l`. -/
-theorem C10_pcm_later_songs_keep_partial (m bk : Nat) (hm : 0 < m) (hm2 : m < 1073741824) (hb : bk < 1073741824)
+theorem C10_pcm_later_songs_keep (m bk : Nat) (hm : 0 < m) (hm2 : m < 1073741824) (hb : bk < 1073741824)
     (ops1 ops2 : List Op) (l1 l : Linker)
-    (h1 : runOps ops1 (Linker.fresh m bk) = .ok l1) (h2 : runOps ops2 l1 = .ok l)
-    (hD11 : ∀ name file, Op.add name file ∈ ops1 ++ ops2 → FileStart0 file) :
+    (h1 : runOps ops1 (Linker.fresh m bk) = .ok l1) (h2 : runOps ops2 l1 = .ok l) :
     runOps (ops1 ++ ops2) (Linker.fresh m bk) = .ok l ∧
     (∀ sd ∈ l1.songs, sd ∈ l.songs) ∧
     (∀ (i : Nat) (e : Bytes), l1.dataBank[i]? = some e → l.dataBank[i]? = some e) ∧
     (∀ s ∈ l1.wave.samples, s ∈ l.wave.samples ∧
         Alloc.Win.reads l.wave.rom ⟨s.position, s.start + s.size⟩ = Alloc.Win.reads l1.wave.rom ⟨s.position, s.start + s.size⟩) ∧
     (∀ q c, Resolves l1.dataBank l1.wave q c → Resolves l.dataBank l.wave q c) := by
-  obtain ⟨rs1, I1, _, _⟩ := runOps_inv ops1 _ l1 [] [] (linv_fresh m bk hm hm2 hb)
-    (fun n f hmem => hD11 n f (List.mem_append_left _ hmem)) h1
-  obtain ⟨rs, I, x, hs⟩ := runOps_inv ops2 l1 l rs1 _ I1 (fun n f hmem => hD11 n f (List.mem_append_right _ hmem)) h2
+  obtain ⟨rs1, I1, _, _⟩ := runOps_inv ops1 _ l1 [] [] (linv_fresh m bk hm hm2 hb) h1
+  obtain ⟨rs, I, x, hs⟩ := runOps_inv ops2 l1 l rs1 _ I1 h2
   refine ⟨by rw [runOps_append, h1]; exact h2, hs, x.bank, ?_, fun q c h => h.mono I1.wave x⟩
   intro s hs1
   refine ⟨x.samples s hs1, ?_⟩
@@ -529,10 +526,10 @@ theorem C10_pcm_later_songs_keep_partial (m bk : Nat) (hm : 0 < m) (hm2 : m < 10
 
 /-! non-vacuity of the two history theorems: two files on a 64-byte rom in 16-byte banks.  File A
 (default group) carries one 8-byte sample; file B (group `sfx`) carries the same 8 bytes at another
-rate (shared data, second header), a flagged data entry and a 20-byte sample (larger than a bank:
-placed at the next multiple of 32); a query in between. -/
+rate (shared data, second header), a flagged data entry and a PCM header with start offset 4 whose 16-byte
+playback window is moved to the next 16-byte bank (leaving a gap); a query in between. -/
 def exFileA : Bytes := [82, 73, 70, 70, 106, 0, 0, 0, 77, 68, 83, 48, 118, 101, 114, 32, 2, 0, 0, 0, 0, 6, 103, 114, 112, 32, 0, 0, 0, 0, 115, 101, 113, 32, 4, 0, 0, 0, 0, 2, 0, 0, 76, 73, 83, 84, 48, 0, 0, 0, 100, 98, 108, 107, 112, 99, 109, 104, 36, 0, 0, 0, 0, 0, 0, 0, 0, 0, 0, 0, 0, 0, 0, 0, 8, 0, 0, 0, 0, 0, 0, 0, 0, 0, 0, 0, 64, 31, 0, 0, 0, 0, 0, 0, 0, 0, 0, 0, 112, 99, 109, 100, 8, 0, 0, 0, 1, 2, 3, 4, 5, 6, 7, 8]
-def exFileB : Bytes := [82, 73, 70, 70, 194, 0, 0, 0, 77, 68, 83, 48, 118, 101, 114, 32, 2, 0, 0, 0, 0, 6, 103, 114, 112, 32, 3, 0, 0, 0, 115, 102, 120, 0, 115, 101, 113, 32, 9, 0, 0, 0, 0, 2, 0, 0, 0, 0, 0, 0, 9, 0, 76, 73, 83, 84, 106, 0, 0, 0, 100, 98, 108, 107, 112, 99, 109, 104, 36, 0, 0, 0, 1, 0, 0, 0, 0, 0, 0, 0, 0, 0, 0, 0, 8, 0, 0, 0, 0, 0, 0, 0, 0, 0, 0, 0, 92, 68, 0, 0, 0, 0, 0, 0, 0, 0, 0, 0, 103, 108, 111, 98, 6, 0, 0, 0, 2, 0, 0, 128, 7, 8, 112, 99, 109, 104, 36, 0, 0, 0, 0, 0, 0, 0, 8, 0, 0, 0, 0, 0, 0, 0, 20, 0, 0, 0, 0, 0, 0, 0, 0, 0, 0, 0, 64, 31, 0, 0, 0, 0, 0, 0, 0, 0, 0, 0, 112, 99, 109, 100, 28, 0, 0, 0, 1, 2, 3, 4, 5, 6, 7, 8, 50, 51, 52, 53, 54, 55, 56, 57, 58, 59, 60, 61, 62, 63, 64, 65, 66, 67, 68, 69]
+def exFileB : Bytes := [82, 73, 70, 70, 194, 0, 0, 0, 77, 68, 83, 48, 118, 101, 114, 32, 2, 0, 0, 0, 0, 6, 103, 114, 112, 32, 3, 0, 0, 0, 115, 102, 120, 0, 115, 101, 113, 32, 9, 0, 0, 0, 0, 2, 0, 0, 0, 0, 0, 0, 9, 0, 76, 73, 83, 84, 106, 0, 0, 0, 100, 98, 108, 107, 112, 99, 109, 104, 36, 0, 0, 0, 1, 0, 0, 0, 0, 0, 0, 0, 0, 0, 0, 0, 8, 0, 0, 0, 0, 0, 0, 0, 0, 0, 0, 0, 92, 68, 0, 0, 0, 0, 0, 0, 0, 0, 0, 0, 103, 108, 111, 98, 6, 0, 0, 0, 2, 0, 0, 128, 7, 8, 112, 99, 109, 104, 36, 0, 0, 0, 0, 0, 0, 0, 8, 0, 0, 0, 4, 0, 0, 0, 16, 0, 0, 0, 0, 0, 0, 0, 0, 0, 0, 0, 64, 31, 0, 0, 0, 0, 0, 0, 0, 0, 0, 0, 112, 99, 109, 100, 28, 0, 0, 0, 1, 2, 3, 4, 5, 6, 7, 8, 50, 51, 52, 53, 54, 55, 56, 57, 58, 59, 60, 61, 62, 63, 64, 65, 66, 67, 68, 69]
 def exOps1 : List Op := [.add [97] exFileA, .query]
 def exOps2 : List Op := [.add [98] exFileB]
 def okOr (e : Except Err Linker) : Linker := match e with
@@ -554,51 +551,17 @@ theorem some_getD {α : Type} (o : Option α) (d : α) (h : o.isSome = true) : o
 def exReadA : SongRead := (readSong exFileA).getD ⟨[], [], [], []⟩
 def exReadB : SongRead := (readSong exFileB).getD ⟨[], [], [], []⟩
 
-set_option maxRecDepth 8192 in
-theorem exStart0 : ∀ name file, Op.add name file ∈ exOps1 ++ exOps2 → FileStart0 file := by
-  have hA : FileStart0 exFileA := by
-    intro rd h
-    have e : readSong exFileA = some exReadA := some_getD _ _ (by decide +kernel)
-    rw [e] at h
-    have hrd := (Option.some.inj h).symm
-    subst hrd
-    have c : exReadA.carried = [.pcm 2 ⟨0, 0, 8, 0, 0, 8000, 0, 0⟩ [1, 2, 3, 4, 5, 6, 7, 8]] := by decide +kernel
-    rw [c]
-    intro cr hcr
-    simp only [List.mem_singleton] at hcr
-    subst hcr; rfl
-  have hB : FileStart0 exFileB := by
-    intro rd h
-    have e : readSong exFileB = some exReadB := some_getD _ _ (by decide +kernel)
-    rw [e] at h
-    have hrd := (Option.some.inj h).symm
-    subst hrd
-    have c : exReadB.carried = [.pcm 4 ⟨0, 0, 8, 0, 0, 17500, 0, 0⟩ [1, 2, 3, 4, 5, 6, 7, 8], .data 6 true [7, 8],
-        .pcm 2 ⟨8, 0, 20, 0, 0, 8000, 0, 0⟩ [50, 51, 52, 53, 54, 55, 56, 57, 58, 59, 60, 61, 62, 63, 64, 65, 66, 67, 68, 69]] := by decide +kernel
-    rw [c]
-    intro cr hcr
-    simp only [List.mem_cons, List.not_mem_nil, or_false] at hcr
-    rcases hcr with rfl | rfl | rfl
-    · rfl
-    · trivial
-    · rfl
-  intro name file hm
-  simp only [exOps1, exOps2, List.cons_append, List.nil_append, List.mem_cons, List.not_mem_nil, or_false, Op.add.injEq, reduceCtorEq, false_or] at hm
-  rcases hm with ⟨_, rfl⟩ | ⟨_, rfl⟩
-  · exact hA
-  · exact hB
-
 theorem exRun1 : runOps exOps1 (Linker.fresh 64 16) = .ok exLinked1 := ok_of_isOk _ (by decide +kernel)
 theorem exRun2 : runOps exOps2 exLinked1 = .ok exLinked := ok_of_isOk _ (by decide +kernel)
 
-example : exLinked.wave.samples.length = 3 ∧ exLinked.songs.length = 2 ∧ exLinked.wave.currentSize = 52 ∧
+example : exLinked.wave.samples.length = 3 ∧ exLinked.songs.length = 2 ∧ exLinked.wave.currentSize = 32 ∧
     exLinked.dataBank.length = 4 := ⟨by decide +kernel, by decide +kernel, by decide +kernel, by decide +kernel⟩
 
 /-- the hypotheses of both history theorems are met by this history -/
 example : ∃ l, runOps (exOps1 ++ exOps2) (Linker.fresh 64 16) = .ok l ∧
-    (∀ name file, Op.add name file ∈ exOps1 ++ exOps2 → FileStart0 file) ∧ l.songs.length = 2 :=
-  ⟨exLinked, (C10_pcm_later_songs_keep_partial 64 16 (by omega) (by omega) (by omega) exOps1 exOps2 exLinked1 exLinked
-      exRun1 exRun2 exStart0).1, exStart0, by decide +kernel⟩
+    l.songs.length = 2 :=
+  ⟨exLinked, (C10_pcm_later_songs_keep 64 16 (by omega) (by omega) (by omega) exOps1 exOps2 exLinked1 exLinked
+      exRun1 exRun2).1, by decide +kernel⟩
 
 /-! ### the two readers -/
 
@@ -615,7 +578,7 @@ what each `glob`/`pcmh` child carries, `Carried` — are, in file order, exactly
 when it succeeds the new song has the file's sequence bytes under the keyified group.
 The converse is false by design: the linker also accepts files the strict reader rejects (missing
 `grp `/`pcmd`, repeated or unknown chunks, other `LIST`s); for those `readSong`/`Carried` are the
-definition of what the song carries (C10_pcm_histories_partial). -/
+definition of what the song carries (C10_pcm_histories). -/
 theorem C10_reader_agreement (f : Bytes) (s : LinkSpec.SongIn) (h : LinkSpec.parseMds f = some s) :
     ∃ rd mds, readSong f = some rd ∧ Riff.ofBytes f = .ok mds ∧
       rd.seq = s.seq ∧ rd.group = s.group ∧ rd.carried.map (toSlot rd.pcmd) = s.slots ∧
@@ -640,7 +603,7 @@ example : (LinkSpec.parseMds exFileA).isSome = true ∧ ((LinkSpec.parseMds exFi
 /-! ### stored once -/
 
 /-- Identical data is stored once and different data is never merged, in the linked bank, for every
-linker state with a duplicate-free data bank (every state a history reaches: C10_pcm_histories_partial)
+linker state with a duplicate-free data bank (every state a history reaches: C10_pcm_histories)
 whose `get_seq_data` succeeds.  (1) The word the relocation writes into a pointer slot `(addr, v)` is
 `entryOffset` of data-bank entry `v mod 2^15` (bit 15 kept), and the bank shows the entry's bytes there
 (this names the offset that C10_relocation_sound only asserts to exist).  (2) Two non-empty entries
@@ -684,9 +647,8 @@ example : ∃ l bank, getSeqData l = .ok bank ∧ l.dataBank.Nodup ∧ l.dataBan
 
 /-! ### the spec's per-song resolver on every song of every history -/
 
-/-- Every song of the linked bank passes the spec's executable per-song resolver (PARTIAL: `hD11` as in
-C10_pcm_histories_partial; `hbl`: the linked bank is shorter than 4 GiB, the range of the 32-bit table
-entries).  For EVERY history a fresh linker runs without error and every successful `get_seq_data`:
+/-- Every song of the linked bank passes the spec's executable per-song resolver (PARTIAL: `hbl`, the
+linked bank is shorter than 4 GiB, the range of the 32-bit table entries).  For EVERY history a fresh linker runs without error and every successful `get_seq_data`:
 song number `i + 1` of the bank was added from one of the files under its name, and if that file is
 one the spec reader accepts (`parseMds file = some s`), then `LinkSpec.songOk bank pcm i s` — the
 resolver the judge runs on the real output — returns ok: the table entry `i` holds an even offset,
@@ -697,12 +659,11 @@ bytes in the PCM bank `get_pcm_data` returns.  (What `resolveBank` adds on top: 
 the `i`-th of `LinkSpec.ordered`, the span/area checks and the list-level stored-once test.) -/
 theorem C10_song_resolves_partial (m bk : Nat) (hm : 0 < m) (hm24 : m < 16777216) (hb : bk < 1073741824)
     (ops : List Op) (l : Linker) (hrun : runOps ops (Linker.fresh m bk) = .ok l)
-    (hD11 : ∀ name file, Op.add name file ∈ ops → FileStart0 file)
     (bank : Bytes) (hseq : getSeqData l = .ok bank) (hbl : bank.length < 4294967296) :
     ∀ (i : Nat) (sd : SeqData), l.songs[i]? = some sd →
       ∃ name file, Op.add name file ∈ ops ∧ sd.filename = name ∧ (∃ rd, readSong file = some rd ∧ sd.data = rd.seq) ∧
         ∀ s, LinkSpec.parseMds file = some s → ∃ r, LinkSpec.songOk bank (getPcmData l) i s = .ok r := by
-  obtain ⟨hsongs, hnd, _, _⟩ := C10_pcm_histories_partial m bk hm hm24 hb ops l hrun hD11
+  obtain ⟨hsongs, hnd, _, _⟩ := C10_pcm_histories m bk hm hm24 hb ops l hrun
   intro i sd hs
   obtain ⟨name, file, rd, hop, hrd, hname, hdata, hall⟩ := hsongs sd (List.mem_of_getElem? hs)
   refine ⟨name, file, hop, hname, ⟨rd, hrd, hdata⟩, ?_⟩
@@ -712,16 +673,11 @@ theorem C10_song_resolves_partial (m bk : Nat) (hm : 0 < m) (hm24 : m < 16777216
   have hrr : rd = rd' := Option.some.inj r1
   subst hrr
   have hlen := laid_bank_small (getSeqData_laid l bank hseq) hnd
-  have hstart := hD11 name file hop rd hrd
   have hA : All2 (SlotServed l) sd.patch s.slots := by
     rw [← r4]
     refine hall.map_right (toSlot rd.pcmd) ?_
     intro q c hc hserves
-    apply served_of_serves l hlen rd q c hc hserves
-    have := hstart c hc
-    cases c with
-    | data addr flag bytes => rfl
-    | pcm addr hdr bytes => exact this
+    exact served_of_serves l hlen rd q c hc hserves
   obtain ⟨o, es, h, _⟩ := songOk_of l bank hseq hnd hbl i sd hs s (by rw [hdata, r2]) (by omega) hA r5 r6
   exact ⟨_, h⟩
 
@@ -747,8 +703,7 @@ theorem C10_group_key_agrees :
 
 example : groupKey [49, 117, 112, 33] = [95, 49, 85, 80] ∧ bytesLt [66, 71, 77] [83, 70, 88] = true := by decide
 
-/-- Song numbers and the resolver's loop (PARTIAL: PCM start offsets 0 — D11, here in the spec's terms as
-in C10_full_statement — and a linked bank below 4 GiB).  For every list of files the spec reader accepts
+/-- Song numbers and the resolver's loop (PARTIAL: a linked bank below 4 GiB).  For every list of files the spec reader accepts
 (`songs` = what it reads), linked by a fresh linker without error: the songs of the bank in song-number
 order are exactly the spec's `ordered songs` (group symbols in dictionary order, input order inside a
 group), song for song — `Paired`: same sequence bytes, every patch entry serving the corresponding slot —
@@ -757,42 +712,29 @@ and the resolver's whole per-song loop `mapM' songOk (enumFrom 0 (ordered songs)
 theorem C10_resolver_songs_partial (m bk : Nat) (hm : 0 < m) (hm24 : m < 16777216) (hb : bk < 1073741824)
     (files : List (Bytes × Bytes)) (songs : List LinkSpec.SongIn) (l : Linker) (bank : Bytes)
     (hparse : files.map (fun f => LinkSpec.parseMds f.2) = songs.map some)
-    (hstart : ∀ s ∈ songs, ∀ sl ∈ s.slots, sl.start = 0)
     (hrun : runOps (files.map fun f => Op.add f.1 f.2) (Linker.fresh m bk) = .ok l)
     (hseq : getSeqData l = .ok bank) (hbl : bank.length < 4294967296) :
     All2 (Paired l) (LinkSpec.ordered songs) l.songs ∧
     ∃ rs, LinkSpec.mapM' (fun p => LinkSpec.songOk bank (getPcmData l) p.1 p.2) (LinkSpec.enumFrom 0 (LinkSpec.ordered songs)) = .ok rs ∧
       rs.length = (LinkSpec.ordered songs).length :=
-  ⟨(songs_in_order m bk hm hm24 hb files songs l bank hparse hstart hrun hseq).1,
-   resolver_songs m bk hm hm24 hb files songs l bank hparse hstart hrun hseq hbl⟩
+  ⟨(songs_in_order m bk hm hm24 hb files songs l bank hparse hrun hseq).1,
+   resolver_songs m bk hm hm24 hb files songs l bank hparse hrun hseq hbl⟩
 
-/-- the hypotheses are met by the two example files (both accepted by the spec reader, start offsets 0) -/
+/-- the hypotheses are met by the two example files (both accepted by the spec reader; file B has a PCM slot
+with start offset 4) -/
 example : ∃ songs : List LinkSpec.SongIn, [(([97] : Bytes), exFileA), ([98], exFileB)].map (fun f => LinkSpec.parseMds f.2) = songs.map some ∧
-    (∀ s ∈ songs, ∀ sl ∈ s.slots, sl.start = 0) ∧ songs.length = 2 := by
+    songs.length = 2 ∧ ((LinkSpec.parseMds exFileB).getD ⟨[], [], []⟩).slots.any (fun sl => sl.start == 4) = true := by
   have hA : (LinkSpec.parseMds exFileA).isSome = true := by decide +kernel
   have hB : (LinkSpec.parseMds exFileB).isSome = true := by decide +kernel
-  have h0 : ((LinkSpec.parseMds exFileA).getD ⟨[], [], []⟩).slots.all (fun sl => sl.start == 0) = true ∧
-      ((LinkSpec.parseMds exFileB).getD ⟨[], [], []⟩).slots.all (fun sl => sl.start == 0) = true := by
-    constructor <;> decide +kernel
-  refine ⟨[(LinkSpec.parseMds exFileA).getD ⟨[], [], []⟩, (LinkSpec.parseMds exFileB).getD ⟨[], [], []⟩], ?_, ?_, rfl⟩
-  · simp only [List.map_cons, List.map_nil]
-    rw [← some_getD _ _ hA, ← some_getD _ _ hB]
-  · intro s hs sl hsl
-    simp only [List.mem_cons, List.not_mem_nil, or_false] at hs
-    rcases hs with h | h
-    · rw [h] at hsl
-      have := List.all_eq_true.mp h0.1 sl hsl
-      exact beq_iff_eq.mp this
-    · rw [h] at hsl
-      have := List.all_eq_true.mp h0.2 sl hsl
-      exact beq_iff_eq.mp this
+  refine ⟨[(LinkSpec.parseMds exFileA).getD ⟨[], [], []⟩, (LinkSpec.parseMds exFileB).getD ⟨[], [], []⟩], ?_, rfl, by decide +kernel⟩
+  simp only [List.map_cons, List.map_nil]
+  rw [← some_getD _ _ hA, ← some_getD _ _ hB]
 
 /-! ### the resolver accepts the linked banks -/
 
 /-- The bank half of `C10_full_statement` (PARTIAL — extra hypotheses beyond those of the full statement:
 `hbl`, the linked sequence bank is shorter than 4 GiB, the range of its 32-bit offsets; `hcnt`, fewer than
-65536 songs, the range of the 16-bit song count in the bank header.  `hstart`, PCM start offsets 0, is
-D11 and is a hypothesis of the full statement too).  For every list of files the spec reader accepts,
+65536 songs, the range of the 16-bit song count in the bank header).  For every list of files the spec reader accepts,
 linked by `MDSDRV_Linker()` without error, with a successful `get_seq_data`: the spec's executable
 resolver `LinkSpec.resolveBank` — bank header (magic, version, song count, end of the sequence area),
 every song in group then input order through the table (sequence bytes unchanged outside the pointer
@@ -802,24 +744,22 @@ inside the sequence area, data entries inside the data area in front of the firs
 stored once and different data never merged, wave-table offset inside the bank — returns `.ok ()`. -/
 theorem C10_full_bank_partial (files : List (Bytes × Bytes)) (songs : List LinkSpec.SongIn) (l : Linker) (bank : Bytes)
     (hparse : files.map (fun f => LinkSpec.parseMds f.2) = songs.map some)
-    (hstart : ∀ s ∈ songs, ∀ sl ∈ s.slots, sl.start = 0)
     (hrun : runOps (files.map fun f => Op.add f.1 f.2) Linker.new = .ok l)
     (hseq : getSeqData l = .ok bank) (hbl : bank.length < 4294967296) (hcnt : songs.length < 65536) :
     LinkSpec.resolveBank songs bank (getPcmData l) = .ok () := by
   rw [Linker.new_eq] at hrun
   exact resolveBank_ok Tables.mds_linkWaveRom Tables.mds_linkWaveBank (by decide) (by decide) (by decide)
-    files songs l bank hparse hstart hrun hseq hbl hcnt
+    files songs l bank hparse hrun hseq hbl hcnt
 
 /-- the same for any fresh linker (any rom below 2^24 bytes, any bank size); met by the two example files
 on the 64-byte rom: `resolveBank` evaluates to ok on that linked output -/
 theorem C10_full_bank_fresh_partial (m bk : Nat) (hm : 0 < m) (hm24 : m < 16777216) (hb : bk < 1073741824)
     (files : List (Bytes × Bytes)) (songs : List LinkSpec.SongIn) (l : Linker) (bank : Bytes)
     (hparse : files.map (fun f => LinkSpec.parseMds f.2) = songs.map some)
-    (hstart : ∀ s ∈ songs, ∀ sl ∈ s.slots, sl.start = 0)
     (hrun : runOps (files.map fun f => Op.add f.1 f.2) (Linker.fresh m bk) = .ok l)
     (hseq : getSeqData l = .ok bank) (hbl : bank.length < 4294967296) (hcnt : songs.length < 65536) :
     LinkSpec.resolveBank songs bank (getPcmData l) = .ok () :=
-  resolveBank_ok m bk hm hm24 hb files songs l bank hparse hstart hrun hseq hbl hcnt
+  resolveBank_ok m bk hm hm24 hb files songs l bank hparse hrun hseq hbl hcnt
 
 def exFiles : List (Bytes × Bytes) := [([97], exFileA), ([98], exFileB)]
 def exL2 : Linker := okOr (runOps (exFiles.map fun f => Op.add f.1 f.2) (Linker.fresh 64 16))
@@ -838,7 +778,7 @@ example : runOps (exFiles.map fun f => Op.add f.1 f.2) (Linker.fresh 64 16) = .o
     exBank2.length < 4294967296 := ⟨ok_of_isOk _ (by decide +kernel), exBank2_ok, by decide +kernel⟩
 
 /-- The header half of `C10_full_statement` (PARTIAL — extra hypothesis `hcnt`: fewer than 65536 songs, the
-range of the 16-bit identifier values; `hstart` as in the full statement).  Both generated headers
+range of the 16-bit identifier values).  Both generated headers
 exist (unique_string terminates) and the spec's header reader `LinkSpec.resolveHeaders` accepts them:
 both texts end with a newline and split into lines of the two formats `NAME = value` /
 `#define NAME value` with the same definitions, every name is a valid symbol, no name is defined
@@ -848,35 +788,33 @@ the last song number. -/
 theorem C10_full_headers_partial (m bk : Nat) (hm : 0 < m) (hm2 : m < 1073741824) (hb : bk < 1073741824)
     (files : List (Bytes × Bytes)) (songs : List LinkSpec.SongIn) (l : Linker)
     (hparse : files.map (fun f => LinkSpec.parseMds f.2) = songs.map some)
-    (hstart : ∀ s ∈ songs, ∀ sl ∈ s.slots, sl.start = 0)
     (hrun : runOps (files.map fun f => Op.add f.1 f.2) (Linker.fresh m bk) = .ok l) (hcnt : songs.length < 65536) :
     ∃ a c, asmHeader l = some a ∧ cHeader l = some c ∧ LinkSpec.resolveHeaders songs a c = .ok () := by
   obtain ⟨ds, hd, hnodup, hok, _⟩ := C10_identifiers_unique_valid l
-  obtain ⟨hgroups, hkeys⟩ := seqBank_groups m bk hm hb hm2 files songs l hparse hstart hrun
+  obtain ⟨hgroups, hkeys⟩ := seqBank_groups m bk hm hb hm2 files songs l hparse hrun
   have hn := songs_length_eq m bk files songs l hparse hrun
   exact resolveHeaders_of l songs ds hd hnodup hok hgroups hkeys (by
     rw [songCount_eq]; simp only [Linker.songs] at hn; omega)
 
 /-- `C10_full_statement` with two extra hypotheses (PARTIAL): `hbl`, the linked sequence bank is shorter
 than 4 GiB (32-bit offsets in the bank), and `hcnt`, fewer than 65536 songs (16-bit song count and
-identifier values).  (`hstart` — D11 — is part of the full statement.)  For every list of files the
+identifier values).  For every list of files the
 spec reader accepts that `MDSDRV_Linker()` links without error and whose `get_seq_data` succeeds, the
 spec resolver accepts the linked sequence bank with the linked PCM bank, and the header reader accepts
 both generated headers. -/
 theorem C10_full_partial (files : List (Bytes × Bytes)) (songs : List LinkSpec.SongIn) (l : Linker) (bank : Bytes)
     (hparse : files.map (fun f => LinkSpec.parseMds f.2) = songs.map some)
-    (hstart : ∀ s ∈ songs, ∀ sl ∈ s.slots, sl.start = 0)
     (hrun : runOps (files.map fun f => Op.add f.1 f.2) Linker.new = .ok l) (hseq : getSeqData l = .ok bank)
     (hbl : bank.length < 4294967296) (hcnt : songs.length < 65536) :
     LinkSpec.resolveBank songs bank (getPcmData l) = .ok () ∧
     ∃ a c, asmHeader l = some a ∧ cHeader l = some c ∧ LinkSpec.resolveHeaders songs a c = .ok () := by
-  refine ⟨C10_full_bank_partial files songs l bank hparse hstart hrun hseq hbl hcnt, ?_⟩
+  refine ⟨C10_full_bank_partial files songs l bank hparse hrun hseq hbl hcnt, ?_⟩
   rw [Linker.new_eq] at hrun
   exact C10_full_headers_partial Tables.mds_linkWaveRom Tables.mds_linkWaveBank (by decide) (by decide) (by decide)
-    files songs l hparse hstart hrun hcnt
+    files songs l hparse hrun hcnt
 
 /-- The full statement of C10 over the model, kept for the record: for every list of well-formed
-MDS files (as read by the spec's own reader, PCM start offsets 0 — D11) that the linker accepts, the
+MDS files (as read by the spec's own reader, any PCM start offsets) that the linker accepts, the
 spec resolver accepts the linked sequence bank with the linked PCM bank, and the header reader
 accepts both headers.  PROVED as `C10_full_partial` with two extra hypotheses; as stated here it does not
 hold without them (by reading; no witness is proved, the smallest ones are far too large to evaluate): (1) the linked bank is shorter than 4 GiB — song and wave-table offsets are
@@ -884,11 +822,10 @@ written as 32-bit words (`be32` truncates; the C++ computes them in an `int`); (
 songs — the bank header carries the song count, and the headers the song numbers, in 16 bits
 (`write_be16(data, 6, get_seq_count())`, `uint16_t value`): the 65536th song makes the count read 0.
 Neither limit is checked by the linker; both are far outside anything the tools are used for, and the
-check's assumptions list the first.  The D11 hypothesis is the known finding (repaired on round-C14R). -/
+check's assumptions list the first. -/
 def C10_full_statement : Prop :=
   ∀ (files : List (Bytes × Bytes)) (songs : List LinkSpec.SongIn) (l : Linker) (bank : Bytes),
     files.map (fun f => LinkSpec.parseMds f.2) = songs.map some →
-    (∀ s ∈ songs, ∀ sl ∈ s.slots, sl.start = 0) →
     runOps (files.map fun f => Op.add f.1 f.2) Linker.new = .ok l → getSeqData l = .ok bank →
     LinkSpec.resolveBank songs bank (getPcmData l) = .ok () ∧
     ∃ a c, asmHeader l = some a ∧ cHeader l = some c ∧ LinkSpec.resolveHeaders songs a c = .ok ()
